@@ -689,15 +689,17 @@ def gen_cases(rng, tier, chk):
         exps = [2, 3, 4, 6, 9, 25, 49, 121, 991, 997, 1009, 1013, 1019, 2 * 997, 2 * 1009, 3 * 1009, 3 * 1013, 2 * 1021, 997 * 2 * 2, 1031, 1499, 2003]
     else:
         bases = [3, 991, 997, 1009, 1013, 10007, 65537]
-        exps = [2, 3, 4, 6, 9, 997, 1009, 1013, 2 * 1009, 3 * 1009]
+        exps = [2, 3, 4, 6, 9, 997, 1009, 1013, 2 * 1009]
     for p in bases:
         for e in exps:
             if p.bit_length() * e > ((45000 if thorough else 36000) if p >= 991 else 6000):
                 continue
+            if not thorough and p > 1013 and e >= 991 and e != 1009:
+                continue                  # the extracted model needs ~1 s per 10^4 bits here: one exponent for the larger bases
             n = p ** e
             cl = "huge p^e, p %s 1009, e %s" % ("<" if p < 1009 else ">=", "prime" if is_prime(e) else "composite")
             add("ipp", [n], "ipp", {p: e}, cl if e >= 991 else "table-bound base, small e")
-            if e >= 991 and (thorough or (p in (997, 1009, 65537) and e in (1009, 2018))):
+            if e >= 991 and (thorough or (p in (997, 1009) and e in (1009, 2018))):
                 q = next_prime(p)
                 add("ipp", [n + 2], "ipp", None, "huge non-power p^e+2")
                 add("ipp", [n * q], "ipp", {p: e, q: 1}, "huge non-power p^e*q")
@@ -1154,6 +1156,14 @@ def main(tier, replay=None):
     ]
     chk.assumptions = ["primality of n >= 65536 is delegated by the code to GMP; agreement with deterministic Miller-Rabin on 64-bit n is TESTED (structured inputs), not proved",
                        "factor/iffactorprime/primefactor/set/write/divisors/isprimepower: hand model after the code, tied by correspondence; their specification is checked per generated case by the python oracle"]
+    import time as _t
+    stage = {}
+    t0 = _t.time()
+
+    def lap(name):
+        nonlocal t0
+        stage[name] = round(_t.time() - t0, 1); t0 = _t.time()
+    chk.cov["stage_seconds"] = stage
     # 0. tables and constants from the current source
     K, err = write_tables()
     if err:
@@ -1165,6 +1175,7 @@ def main(tier, replay=None):
     # files missing), theorems that are not discharged are a broken obligation
     if (chk.cov["discharged"] != chk.cov["obligations"] or chk.cov["obligations"] < 1) and not chk.broken:
         chk.broke("coq/C12: %d of %d theorems discharged" % (chk.cov["discharged"], chk.cov["obligations"]), res.get("log", ""))
+    lap("coq")
     # 2. executables
     drv, l1 = vf.ocaml_build(AREA) if os.path.exists(os.path.join(vf.coq_dir(AREA), "ocaml", "model.ml")) else (None, "extraction did not run")
     if drv is None:
@@ -1185,14 +1196,17 @@ def main(tier, replay=None):
         for c, o in zip(cases, iout):
             print("replay %s %s -> %s" % (c["v"], c["args"], o[:200]))
         return 0
+    lap("build")
     sv = sieve(1 << 17)
     cases = gen_cases(rng, tier, chk)
+    lap("generate")
     impl_in = "".join("%s %s\n" % (c["v"], " ".join(str(x) for x in c["args"])) for c in cases)
     rc, iout, ierr = vf.run_lines(himpl, impl_in, timeout=1500, args=["12" if tier == "quick" else "90"])
     if rc != 0 or len(iout) != len(cases):
         bad = cases[len(iout)] if len(iout) < len(cases) else None
         chk.broke("implementation harness failed (rc=%s, %d/%d lines); next case: %s" % (rc, len(iout), len(cases), bad and (bad["v"], bad["args"])), ierr)
         return chk.finish()
+    lap("implementation")
     # 4. model run on the same cases (+ the implementation's random-walk answers as oracle values)
     mlines, midx = [], []
     for i, c in enumerate(cases):
@@ -1206,6 +1220,7 @@ def main(tier, replay=None):
             chk.broke("model driver failed (rc=%s, %d/%d lines)" % (rc, len(mo), len(mlines)), merr)
         else:
             mout = {i: o for i, o in zip(midx, mo)}
+    lap("model")
     # 5. three-way comparison
     ncorr = 0
     dist = {}
@@ -1237,6 +1252,7 @@ def main(tier, replay=None):
                             d = " first difference at n=%d: impl=%s model=%s" % (c["args"][0] + j, x, y); break
                 chk.broke("correspondence model/implementation differs on %s %s: model=%s impl=%s%s"
                           % (c["v"], [str(x)[:80] for x in c["args"]][:6], mm[:120], mi[:120], d))
+    lap("compare")
     if os.environ.get("C12_DEBUG"):
         json.dump({"failing": chk.failing, "broken": chk.broken}, open(os.path.join(vf.BUILD, "logs", "C12.debug.json"), "w"), indent=1, default=str)
     if len(chk.broken) > 20:
